@@ -184,5 +184,148 @@ impl<const K: usize> AffTree<K> {
 //@end
 }
 
+pub open spec fn r_ok_leaf<const K: usize>(a: AArena<K>, i: usize) -> bool { a.dom().contains(i) && a[i].isleaf }
+pub open spec fn leaf_done<const K: usize>(a0: AArena<K>, a1: AArena<K>, i: usize, f: &AffFunc) -> bool {
+    a1[i].value.state == a0[i].value.state && a1[i].value.aff.ok() && a1[i].value.aff.mat.ncols() == a0[i].value.aff.mat.ncols() && a1[i].value.aff.mat.nrows() == f.mat.nrows()
+        && forall|x: V| x.len() == a0[i].value.aff.mat.ncols() ==> #[trigger] a1[i].value.aff.ap(x) =~= f.ap(a0[i].value.aff.ap(x))
+}
+
+// node `node` got its function replaced by `f` after it; nothing else changed
+pub open spec fn composed_at<const K: usize>(a0: AArena<K>, a1: AArena<K>, node: usize, f: &AffFunc) -> bool {
+    &&& same_shape(a0, a1) && a0.dom().contains(node)
+    &&& a1[node].value.state == a0[node].value.state
+    &&& a1[node].value.aff.ok() && a1[node].value.aff.mat.ncols() == a0[node].value.aff.mat.ncols() && a1[node].value.aff.mat.nrows() == f.mat.nrows()
+    &&& forall|x: V| x.len() == a0[node].value.aff.mat.ncols() ==> #[trigger] a1[node].value.aff.ap(x) =~= f.ap(a0[node].value.aff.ap(x))
+    &&& forall|i: usize| a0.dom().contains(i) && i != node ==> #[trigger] a1[i] == a0[i]
+}
+
+// effect of apply_func: every terminal composed with f, decisions untouched
+pub open spec fn all_leaves_composed<const K: usize>(a0: AArena<K>, a1: AArena<K>, f: &AffFunc) -> bool {
+    &&& same_shape(a0, a1)
+    &&& forall|i: usize| #![trigger a1[i]] a0.dom().contains(i) && !a0[i].isleaf ==> a1[i] == a0[i]
+    &&& forall|i: usize| #![trigger a1[i]] a0.dom().contains(i) && a0[i].isleaf ==> a1[i].value.state == a0[i].value.state
+            && a1[i].value.aff.ok() && a1[i].value.aff.mat.ncols() == a0[i].value.aff.mat.ncols() && a1[i].value.aff.mat.nrows() == f.mat.nrows()
+            && forall|x: V| x.len() == a0[i].value.aff.mat.ncols() ==> #[trigger] a1[i].value.aff.ap(x) =~= f.ap(a0[i].value.aff.ap(x))
+}
+
+// apply_func(a) is the special case of composition with an affine g:  h(x) == a(f(x)), undefined where f is
+pub proof fn lemma_apply_func_tree_fn<const K: usize>(a0: AArena<K>, a1: AArena<K>, h: Map<usize, nat>, f: &AffFunc, idx: usize, x: V, in_dim: usize)
+    requires all_leaves_composed(a0, a1, f), ranked_down(a0, h), kids_ok(a0), a0.dom().contains(idx), aff_shape_ok(a0, in_dim), x.len() == in_dim
+    ensures tree_fn(a1, h, idx, x) == (match tree_fn(a0, h, idx, x) { Some(y) => Some(f.ap(y)), None => None })
+    decreases h[idx]
+{
+    let nd = a0[idx];
+    if nd.isleaf {
+        assert(a1[idx].isleaf);
+    } else {
+        assert(a1[idx] == a0[idx]);
+        let l = decide(&nd.value.aff, x);
+        if 0 <= l < K && nd.children[l].is_some() && h[nd.children[l].unwrap()] < h[idx] {
+            lemma_apply_func_tree_fn(a0, a1, h, f, nd.children[l].unwrap(), x, in_dim);
+        }
+    }
+}
+
+impl<const K: usize> AffTree<K> {
+//@fn src/pwl/afftree.rs | impl<const K: usize> AffTree<K> | add_child_node
+//@spec
+    requires old(self).tree.wf(), label < K
+    ensures
+        add_child_post(old(self).a(), final(self).a(), node, label, r),
+        r matches Ok(c) ==> final(self).a()[c].value.aff == aff && final(self).a()[c].value.state is Indeterminate
+            && final(self).a()[node].value == old(self).a()[node].value,
+        r is Err <==> !old(self).a().dom().contains(node) || old(self).a()[node].children[label as int] is Some,
+        final(self).tree.root == old(self).tree.root, final(self).in_dim == old(self).in_dim,
+        add_child_post(old(self).a(), final(self).a(), node, label, r) ==> final(self).tree.wf(),
+//@hint start
+        proof { lemma_add_child_wf_all(old(self).a(), old(self).tree.root, node, label); }
+//@end
+
+//@fn src/pwl/afftree.rs | impl<const K: usize> AffTree<K> | apply_func_at_node
+//@spec
+    requires old(self).a().dom().contains(node), aff.ok(), old(self).a()[node].value.aff.ok(), aff.mat.ncols() == old(self).a()[node].value.aff.mat.nrows()
+    ensures
+        // composes `aff` on the left of the node's function, keeps the cached state and every other node
+        composed_at(old(self).a(), final(self).a(), node, aff),
+        final(self).tree.root == old(self).tree.root, final(self).in_dim == old(self).in_dim,
+//@end
+
+//@fn src/pwl/afftree.rs | impl<const K: usize> AffTree<K> | apply_func
+//@spec
+    requires old(self).tree.wf(), aff_func.ok(), aff_shape_ok(old(self).a(), old(self).in_dim),
+        forall|i: usize| old(self).a().dom().contains(i) && #[trigger] old(self).a()[i].isleaf ==> old(self).a()[i].value.aff.mat.nrows() == aff_func.mat.ncols(),
+    ensures
+        all_leaves_composed(old(self).a(), final(self).a(), aff_func),
+        final(self).tree.root == old(self).tree.root, final(self).in_dim == old(self).in_dim,
+        all_leaves_composed(old(self).a(), final(self).a(), aff_func) ==> final(self).tree.wf(),
+        // semantically: first this tree, then aff_func
+        all_leaves_composed(old(self).a(), final(self).a(), aff_func) ==>
+            forall|h: Map<usize, nat>, idx: usize, x: V| #![trigger tree_fn(final(self).a(), h, idx, x)]
+                ranked_down(old(self).a(), h) && old(self).a().dom().contains(idx) && x.len() == old(self).in_dim ==>
+                tree_fn(final(self).a(), h, idx, x) == (match tree_fn(old(self).a(), h, idx, x) { Some(y) => Some(aff_func.ap(y)), None => None }),
+//@hint start
+        proof {
+            lemma_same_shape_wf_all(old(self).a(), old(self).tree.root);
+            assert forall|a1: AArena<K>, h: Map<usize, nat>, idx: usize, x: V| #![trigger all_leaves_composed(old(self).a(), a1, aff_func), tree_fn(a1, h, idx, x)]
+                all_leaves_composed(old(self).a(), a1, aff_func) && ranked_down(old(self).a(), h) && old(self).a().dom().contains(idx) && x.len() == old(self).in_dim implies
+                tree_fn(a1, h, idx, x) == (match tree_fn(old(self).a(), h, idx, x) { Some(y) => Some(aff_func.ap(y)), None => None }) by {
+                lemma_apply_func_tree_fn(old(self).a(), a1, h, aff_func, idx, x, old(self).in_dim);
+            }
+        }
+//@loop 1
+            invariant
+                same_shape(old(self).a(), self.a()), self.tree.root == old(self).tree.root, self.in_dim == old(self).in_dim,
+                aff_func.ok(),
+                forall|i: usize| r_ok_leaf(old(self).a(), i) ==> old(self).a()[i].value.aff.mat.nrows() == aff_func.mat.ncols(),
+                aff_shape_ok(old(self).a(), old(self).in_dim),
+                forall|i: usize| __v@.contains(i) <==> old(self).a().dom().contains(i) && old(self).a()[i].isleaf,
+                forall|j1: int, j2: int| 0 <= j1 < j2 < __v@.len() ==> __v@[j1] < __v@[j2],
+                0 <= __i <= __v@.len(),
+                // untouched so far: decisions and the leaves still to come
+                forall|i: usize| #![trigger self.a()[i]] old(self).a().dom().contains(i) && (!old(self).a()[i].isleaf || (exists|j: int| __i <= j < __v@.len() && __v@[j] == i)) ==> self.a()[i] == old(self).a()[i],
+                // done: the leaves before position __i
+                forall|j: int| #![trigger __v@[j]] 0 <= j < __i ==> leaf_done(old(self).a(), self.a(), __v@[j], aff_func),
+            decreases __v@.len() - __i
+//@hint loop 1 start
+            let ghost a_pre = self.a();
+            proof {
+                let i0 = __v@[__i as int];
+                assert(__v@.contains(i0));
+                assert(self.a()[i0] == old(self).a()[i0]);
+                assert(r_ok_leaf(old(self).a(), i0));
+            }
+//@hint loop 1 end
+            proof {
+                let k = __i - 1;
+                let i0 = __v@[k];
+                assert(composed_at(a_pre, self.a(), i0, aff_func));
+                assert forall|i: usize| old(self).a().dom().contains(i) && (!old(self).a()[i].isleaf || (exists|j: int| __i <= j < __v@.len() && __v@[j] == i))
+                    implies #[trigger] self.a()[i] == old(self).a()[i] by {
+                    if old(self).a()[i].isleaf {
+                        let j = choose|j: int| __i <= j < __v@.len() && __v@[j] == i;
+                        assert(__v@[k] < __v@[j]);
+                    } else {
+                        assert(__v@.contains(i0));
+                    }
+                    assert(i != i0);
+                    assert(a_pre[i] == old(self).a()[i]);
+                }
+                assert forall|j: int| 0 <= j < __i implies leaf_done(old(self).a(), self.a(), #[trigger] __v@[j], aff_func) by {
+                    if j < k { assert(__v@[j] < __v@[k]); assert(leaf_done(old(self).a(), a_pre, __v@[j], aff_func)); assert(__v@.contains(__v@[j])); assert(old(self).a().dom().contains(__v@[j])); assert(a_pre.dom().contains(__v@[j])); assert(self.a()[__v@[j]] == a_pre[__v@[j]]); }
+                    else { assert(a_pre[i0] == old(self).a()[i0]); }
+                }
+                assert(same_shape(old(self).a(), self.a()));
+            }
+//@hint loop 1 after
+        proof {
+            assert forall|i: usize| old(self).a().dom().contains(i) && old(self).a()[i].isleaf implies leaf_done(old(self).a(), self.a(), i, aff_func) by {
+                assert(__v@.contains(i));
+                let j = choose|j: int| 0 <= j < __v@.len() && __v@[j] == i;
+                assert(leaf_done(old(self).a(), self.a(), __v@[j], aff_func));
+            }
+        }
+//@end
+}
+
 } // verus!
 fn main() {}
